@@ -63,7 +63,15 @@ func runSharded(name, tier string, n int) *CustomResult {
 		go func(i int) {
 			defer wg.Done()
 			cmd := exec.Command("/proc/self/exe", "shard", name, tier, fmt.Sprint(i), fmt.Sprint(n))
-			cmd.Env = append(os.Environ(), "GOMAXPROCS=2", "VERIF_MAPMODE=1")
+			// one P per worker: goroutine hand-offs are direct and the order in which goroutines started by one core
+			// function run is the run queue order (FIFO), which is what makes the parallel preemption predicate checks
+			// of the core report in a reproducible order (with two Ps the first answer wins ties differently from run
+			// to run, seen as replay divergence in E2 and nondeterministic replay in E1)
+			procs := "1"
+			if p := os.Getenv("VERIF_SHARD_PROCS"); p != "" {
+				procs = p
+			}
+			cmd.Env = append(os.Environ(), "GOMAXPROCS="+procs, "VERIF_MAPMODE=1")
 			var stdout, stderr bytes.Buffer
 			cmd.Stdout, cmd.Stderr = &stdout, &stderr
 			// a shard that does not finish is a harness error (never a silent hang of the check)
@@ -105,6 +113,11 @@ func runSharded(name, tier string, n int) *CustomResult {
 			case []interface{}:
 				if k == "samples" && len(samples) < 6 {
 					samples = append(samples, x...)
+				} else if k != "samples" {
+					cur, _ := out.Coverage[k].([]interface{})
+					if len(cur) < 20 {
+						out.Coverage[k] = append(cur, x...)
+					}
 				}
 			case bool:
 				cur, ok := out.Coverage[k].(bool)
